@@ -35,15 +35,14 @@ BRIDGE_THEOREMS = [
 ]
 # the label-slice theorems of C02 / C05 restated for the translated source (lean/SFModel/Props/C02LocMap.lean)
 GEN_THEOREMS = [
-    'SF.C02LocMap.gen_slice_inclusive', 'SF.C02LocMap.gen_slice_inclusive_descending_partial', 'SF.C02LocMap.gen_slice_absent',
+    'SF.C02LocMap.gen_slice_inclusive', 'SF.C02LocMap.gen_slice_inclusive_descending', 'SF.C02LocMap.gen_slice_absent',
     'SF.C02LocMap.gen_leaf_open_slice_bounded', 'SF.C02LocMap.gen_element_bijection', 'SF.C02LocMap.gen_list_positions',
-    'SF.C02LocMap.gen_numpy_step_counterexample',
+    # finding F90 (repaired in /repo b8dc316): the pinned variant, its counterexample, and what the repair left unchanged
+    'SF.C02LocMap.genPinned_numpy_step_counterexample', 'SF.C02LocMap.genPinned_agrees_on_python_ints',
 ]
-PARTIAL = ('SF.C02LocMap.gen_slice_inclusive_descending_partial: proved for a step whose class is exactly int; for a np.integer / bool '
-           'step of negative value LocMap.map_slice_args still adds 1 to the stop (gen_numpy_step_counterexample, finding F90)')
 TRUSTED = ('tools/py2lean_locmap.py (translator of the non-datetime arm of LocMap.map_slice_args and of the slice, list and element '
-           'branches of LocMap.loc_to_iloc; its typing assumptions: a slice step is None or has an integer value (class exactly int iff the '
-           'parameter key_step_is_int), labels are not np.datetime64, '
+           'branches of LocMap.loc_to_iloc; its typing assumptions: a slice step is None or has an integer value, of whatever integer class '
+           '(a test of the class of the step is rejected), labels are not np.datetime64, '
            'a key is a slice, a Python list of labels or a label - ndarray keys are outside); '
            'cross-checked against the real LocMap.loc_to_iloc / map_slice_args on a grid on every C02 run')
 
